@@ -41,7 +41,7 @@ TRIAGE = [
     ("syncBegin.go", 106, "", "O", "log-only branch"),
     ("pipe/pipe.go", 45, "", "E", "min(n, maxlen) at equality"),
     ("pipe/pipe.go", 57, "", "E", "min(n, maxlen) at equality"),
-    ("pipe/pipe.go", 107, "", "G", "no-verdict (run exceeded the budget: the mutant deadlocks helper goroutines the scripted stage waits for)"),
+    ("pipe/pipe.go", 107, "", "G", "Read on an empty pipe returns (0, nil) at once and never reports the writer's close: re-run by hand, the free-running readers spin until their watchdog (27 inconclusive cases, no verdict). A reader that polls instead of waiting is not caught"),
     ("redis/encoder.go", 146, "", "G", "a failing writer's error after the final CRLF is swallowed; writers that fail are not generated (the statement is about values and bytes)"),
     ("cupcake/rdb/decoder.go", 482, "", "E", "ParseFloat bitSize 63 behaves as 64"),
     ("redis_command.go", 91, "", "E", "lastkey 0 entries have no keys and return earlier"),
@@ -61,6 +61,16 @@ TRIAGE = [
     ("decode.go", 105, "", "O", "progress output"),
     ("decode.go", 78, "", "G", "waits for one more worker than exist: decode never returns - same class as decode.go:98, now a violation (re-run after the C17 change)"),
     ("decode.go", 73, "", "E", "value sent on the join channel is ignored"),
+    ("backlog/buff.go", 46, "", "G", "one-byte writes never return (Write loops on a store that accepts nothing): re-run by hand, the check ends *inconclusive* at the driver's budget; termination of Write is not part of the statement"),
+    ("backlog/backlog.go", 142, "", "E", "default error of Close(): the function never stores the error it is given (see F18-a); readers learn about the close from the released store"),
+    ("metric/variables.go", 57, "", "O", "content of the metric document; C19 is about passwords only"),
+    ("metric/variables.go", 55, "", "O", "content of the metric document"),
+    ("metric/variables.go", 58, "", "O", "content of the metric document"),
+    ("metric/variables.go", 44, "", "O", "content of the metric document"),
+    ("metric/variables.go", 41, "", "O", "content of the metric document"),
+    ("dbSyncer.go", 119, "", "N", "received-bytes counter starts at 1: offset bookkeeping, C08's subject (ACK one ahead of what was received)"),
+    ("dbSyncer.go", 94, "", "E", "size of the restart budget of Sync(); the statement only asks for a bounded number of supervisor retries"),
+    ("supervisor.go", 45, "", "E", "initial value overwritten by the next statement"),
 ]
 
 
